@@ -807,8 +807,13 @@ def curv_call(sess, op, step, out, stats, log):
     ref = sess.ref
     free = np.array(op["free"], float)
     which = op["which"]
+    stored = bool(op.get("use_stored")) and d["id"] in sess.loss_theta
+    if stored:
+        free = np.array(sess.loss_theta[d["id"]], float)
+        stats["stored_theta_calls"] = stats.get("stored_theta_calls", 0) + 1
     try:
-        got = np.asarray(obj.jtj(free.copy()) if which == "jtj" else obj.hessian(free.copy()), float)
+        arg = None if stored else free.copy()
+        got = np.asarray(obj.jtj(arg) if which == "jtj" else obj.hessian(arg), float)
     except core.RunTimeout:
         raise
     except Exception as e:
@@ -817,6 +822,7 @@ def curv_call(sess, op, step, out, stats, log):
         out.append(core.crash_failure("C20", e, step, "%s.%s" % (d["cls"], which)))
         return
     _sync_model_theta(sess, d, list(free))
+    _remember_theta(sess, d, list(free))
     stats[which + "_calls"] = stats.get(which + "_calls", 0) + 1
     log.append([which, step, core.digest(got.tolist(), 6)])
     theta, x0 = full_theta(sess, d, list(free))
@@ -1252,7 +1258,7 @@ def gen_loss_case(S, tier, prop, kinds, classes=None, allow_targets=True, nloss=
                                       "method": srng.choice([None, None, "lsoda", "vode", "dopri5"]) if kind != "gradient" else None})
                     else:
                         calls.append({"op": "curv", "id": d["id"], "which": kind, "free": free})
-                    if kind in ("cost", "residual", "sensitivity", "gradient", "jac") and srng.random() < 0.3:
+                    if kind in ("cost", "residual", "sensitivity", "gradient", "jac", "jtj", "hessian") and srng.random() < 0.3:
                         # called without an argument: at the parameters the object was last given (used only
                         # when an earlier call gave it some; otherwise the explicit vector is passed)
                         calls[-1]["use_stored"] = True
